@@ -99,6 +99,15 @@ def run(ck):
     for f in resf["findings"][:3]:
         kind = "listed-segment-does-not-resolve" if "does not resolve" in f["what"] else "playlist-served-beside-other-requests-is-not-the-current-one"
         ck.violation("C10:%s:%s" % (kind, f["mode"]), "%s storage, after frame %d, token %r: %s" % (f["mode"], f["after_frame"], f["token"], f["what"]), f)
+    # ---- a path taken over while the replaced stream is still open (C05), both publishing ---------------------
+    orp = os.path.join(ck.tmp, "c10_replaced.json")
+    ck.run_driver("./c10", "^TestHlsReplaced$", {"VERIF_OUT": orp}, timeout=600)
+    resr = ck.read_result(orp)
+    if resr["segments_fetched"] < 4 and not resr["findings"]:
+        raise Infra("vacuous replaced-stream leg: %d segments fetched" % resr["segments_fetched"])
+    ck.cov["replaced_stream_leg_segments"] = resr["segments_fetched"]
+    for f in resr["findings"][:3]:
+        ck.violation("C10:path-taken-over:%s:%s" % (f["mode"], f["what"].split(":")[0]), "%s storage, a path taken over while the replaced stream stays open, segment %d: %s" % (f["mode"], f["seq"], f["what"]), f)
     seen = set()
     for b in bad:
         if b["why"] in seen:
